@@ -8,16 +8,17 @@ import (
 )
 
 // Value is one of:
-//   *Term                      scalar: bool, integers, float64
-//   string / SymStr / *OpaqueStr   strings
-//   Struct, Array              aggregates (value semantics, copied on load/store)
-//   *Value                     pointer to a memory slot (nil pointer = (*Value)(nil))
-//   Slice                      slice with concrete geometry
-//   *Map
-//   Iface                      interface value
-//   *ssa.Function, *Closure, *ssa.Builtin, *StubFunc   function values (nil func = nil)
-//   Tuple
-//   stub objects (*HashObj, ...)
+//
+//	*Term                      scalar: bool, integers, float64
+//	string / SymStr / *OpaqueStr   strings
+//	Struct, Array              aggregates (value semantics, copied on load/store)
+//	*Value                     pointer to a memory slot (nil pointer = (*Value)(nil))
+//	Slice                      slice with concrete geometry
+//	*Map
+//	Iface                      interface value
+//	*ssa.Function, *Closure, *ssa.Builtin, *StubFunc   function values (nil func = nil)
+//	Tuple
+//	stub objects (*HashObj, ...)
 type Value interface{}
 
 type Struct []Value
